@@ -76,11 +76,22 @@ def run_case(case):
         for strat in case["strategies"]:
             w.rng.draws = 0
             w.draw_cap = 20000
+            boundaries = []
+            c0 = w.stdout.nchars
+            orig_write = w.stdout.write
+
+            def write(s_, _b=boundaries, _o=orig_write):
+                _b.append(w.stdout.nchars)
+                return _o(s_)
+            if m.status == "erroneous":
+                w.stdout.write = write
             try:
                 with common.time_limit(5):
                     res, exc = common.synth(w, blk, strat, case["n"])
             except (common.InnerTimeout, W.HarnessCap):
                 continue
+            finally:
+                w.stdout.__dict__.pop("write", None)
             if exc is not None:
                 continue
             returned += len(res)
@@ -88,6 +99,25 @@ def run_case(case):
                 if res:
                     viols.append(("C15/non-covering-levels-but-sequences-returned/%s" % ("sat" if strat != "RandomGen" else "random"),
                                   "%s ; %s returned %d sequences" % (m.reason, strat, len(res))))
+                    continue
+                # the same call again with the output stream failing once (EPIPE) at one write after the other: the report
+                # of the error may be lost with the stream, the refusal to synthesize may not
+                offs = sorted(set(b_ - c0 for b_ in boundaries))
+                step = max(1, len(offs) // 10)
+                for off in offs[::step][:12]:
+                    w.stdout.epipe_after = w.stdout.nchars + off
+                    try:
+                        with common.time_limit(5):
+                            res2, exc2 = common.synth(w, blk, strat, case["n"])
+                    except (common.InnerTimeout, W.HarnessCap):
+                        break
+                    finally:
+                        w.stdout.epipe_after = None
+                    w.count("stdout-fault-placements")
+                    if exc2 is None and res2:
+                        viols.append(("C15/non-covering-levels-but-sequences-returned/%s/after-stdout-fault" % ("sat" if strat != "RandomGen" else "random"),
+                                      "%s ; %s returned %d sequences when one write to stdout (at character %d of the call's output) failed with EPIPE" % (m.reason, strat, len(res2), off)))
+                        break
                 continue
             if blk.trials_per_sample() != m.T:
                 continue
